@@ -14,7 +14,7 @@ CHECKS = {
    note=TB + "glibc allocator/qsort thread-safety; API contract that distinct pointer parameters do not overlap.",
    tech="static analysis: interprocedural points-to / side-effect (Mod set) analysis on LLVM IR"),
  "C18": dict(engine="E-ALLOC", cat="other", ref="DESIGN.md 4/C18, 3/E-ALLOC",
-   text="Typestate dataflow over every allocation site (52 today): NULL-tested before dereference, failure edge reaches only failure returns (or a hand-confirmed correct fallback), owned blocks released on every exit, fallible callee status not discarded or masked, owning fields not overwritten while live. Covers the k-th failure of every allocation for every k. Structural clauses only; 'object remains usable' beyond no-leak/no-dangling is not decided.",
+   text="Typestate dataflow over every allocation site (52 today): NULL-tested before dereference, failure edge reaches only failure returns (or a hand-confirmed correct fallback), owned blocks released on every exit, fallible callee status not discarded or masked, owning fields not overwritten while live, the long-lived object not modified before a failure is reported (R7), realloc's result tested before it replaces the pointer it grew (R8). Covers the k-th failure of every allocation for every k. Structural clauses only; 'object remains usable' beyond no-leak/no-dangling is not decided.",
    note=TB + "Three fallbacks (AdaptiveCountUnique x2, BitmapRemove shrink, AddRange shortcut) are accepted as correct by reading; free(NULL) is a no-op; 10 known findings (discarded varintBitmapAdd/Remove status) listed in known_findings.json.",
    tech="static analysis: allocation typestate dataflow + failure-edge reachability on LLVM IR"),
 }
@@ -24,11 +24,11 @@ CHECKS.update({
    note=TB + "Set equality with a mathematical model is a behavioural property over histories and is out of reach of a sound static argument here; only the named clauses are claimed.",
    tech="static analysis: points-to Mod sets, switch-table exhaustiveness, free-without-read dataflow on LLVM IR"),
  "C15": dict(engine="E-PTS + E-UNINIT", cat="other", ref="DESIGN.md 4/C15, 3/E-UNINIT",
-   text="S1: no mutable static storage and no stateful libc callee anywhere in the linked library. S2: interprocedural definite-initialisation dataflow at byte granularity over every stack and fixed-size heap object: each load, callee read-before-write, struct copy-out and constructor return is an obligation that the bytes were written on every path. Array cells (variable index) are not decided.",
+   text="S1: no mutable static storage and no stateful libc callee anywhere in the linked library. S2: interprocedural definite-initialisation dataflow at byte granularity over every stack and fixed-size heap object: each load, callee read-before-write, struct copy-out and constructor return is an obligation that the bytes were written on every path. S3: heap arrays written by position are written on every iteration before being read whole. S4: a cursor step over a zero-filled output region equals the filled size (4 BP128 sites). Other array cells (variable index) are not decided.",
    note=TB + "Callee summaries (upward-exposed reads, must-writes per return class) are specialised on constant integer arguments; exhaustive enum switches are assumed exhaustive only for objects received through parameters.",
    tech="static analysis: must-initialised dataflow with callee summaries + Mod-set analysis on LLVM IR"),
  "C16": dict(engine="E-META (on E-UNINIT)", cat="other", ref="DESIGN.md 4/C16, 3/E-META",
-   text="For every function that writes a metadata struct (24 writer parameters today): every scalar field is definitely written on every success return (must-write per return class); the value stored to encodedSize/encodedBytes is, as a linear form over SSA values, the value the encoder returns; the count field receives the count argument; no field of a kind the property names is stored a literal constant on a success path for non-empty input. Numeric truth of min/max/run counts is NOT decided; header-reader/writer layout agreement (M4) is not built.",
+   text="For every function that writes a metadata struct (24 writer parameters today): every scalar field is definitely written on every success return (must-write per return class); the value stored to encodedSize/encodedBytes is, as a linear form over SSA values, the value the encoder returns; the count field receives the count argument; no field of a kind the property names is stored a literal constant on a success path for non-empty input; (M6) sizes reported by varintRLEAnalyze / varintPFORSize are built from the same length terms as the encoder's cursor advances; (M8) the block count reported by the four BP128 encoders equals ceil(values packed / 128) for every residue of count. Numeric truth of min/max/run counts is NOT decided; header-reader/writer layout agreement (M4) is not built.",
    note=TB + "In/out metadata parameters (FOR encoders) are exempt from M1 and covered by C15; 3 known findings (AdaptiveDecode encodedSize, AdaptiveReadMeta placeholders).",
    tech="static analysis: out-parameter must-write dataflow + SSA linear-form equality on LLVM IR"),
  "C13": dict(engine="E-BOUNDS", cat="other", ref="DESIGN.md 4/C13, 3/E-BOUNDS",
@@ -68,16 +68,16 @@ CHECKS.update({
    note=TB + "Precondition: val < 2^n (assert in the source); n <= bits per word.",
    tech="static analysis: bit-level abstract interpretation with congruence partitioning on LLVM IR"),
  "C06": dict(engine="E-TABLE + dataflow", cat="other", ref="DESIGN.md 4/C06",
-   text="Four structural necessary conditions of the adaptive container's losslessness: header byte == reported type == dispatched type (SSA identity); encode and decode dispatch tables have equal case sets, each case calls the encoder/decoder of the same codec family, and every value the selector can return is an explicit case of both; every path of the selection decision tree to BITMAP establishes fitsInBitmapRange, isSorted, uniqueCount == count and count below the exact-count threshold; no length-taking sub-decoder receives a literal length. Losslessness of each sub-codec for every array is NOT decided (C02's reason).",
+   text="Four structural necessary conditions of the adaptive container's losslessness: header byte == reported type == dispatched type (SSA identity); encode and decode dispatch tables have equal case sets, each case calls the encoder/decoder of the same codec family, and every value the selector can return is an explicit case of both; every path of the selection decision tree to BITMAP establishes fitsInBitmapRange, isSorted, uniqueCount == count and count below the exact-count threshold; no length-taking sub-decoder receives a literal length; fitsInBitmapRange is only set when every value is below the bound under which the encoder's BITMAP arm stores values. Losslessness of each sub-codec for every array is NOT decided (C02's reason).",
    note=TB + "2 known findings (literal 1 MiB length for the DICT and BITMAP sub-decoders: the API has no input length).",
    tech="static analysis: SSA identity, switch-table and path-condition extraction on LLVM IR"),
  "C07": dict(engine="E-TABLE + E-RANGE", cat="other", ref="DESIGN.md 4/C07",
-   text="Three range/table clauses only: (T1) the fcmp decision chain of varintFloatEncodeAuto, read as a table error-interval -> precision, never selects a lossy mode whose published bound 2^-mantissaBits exceeds the interval's infimum; (T2) interval evaluation of truncateMantissa over all normal 53-bit mantissas shows the rounded result fits the stored field for each lossy width; (T3) the common-exponent delta is range-guarded before truncation to a byte. FULL-mode bit-exactness, special values and the relative error bound itself are NOT decided (value-level).",
-   note=TB + "1 known finding (T3: one-byte exponent delta, a format limitation).",
+   text="Four range/table clauses only: (T1) the fcmp decision chain of varintFloatEncodeAuto, read as a table error-interval -> precision, never selects a lossy mode whose published bound 2^-mantissaBits exceeds the interval's infimum; (T2) interval evaluation of truncateMantissa over all normal 53-bit mantissas shows the rounded result fits the stored field for each lossy width; (T3) the common-exponent delta is range-guarded before truncation to a byte. FULL-mode bit-exactness, special values and the relative error bound itself are NOT decided (value-level).",
+   note=TB + "(T4) interval evaluation of varintFloatCompose's clamps over all exponents of normal doubles shows only the assembling path returns. 1 known finding (T3: one-byte exponent delta, a format limitation).",
    tech="static analysis: decision-table extraction and interval evaluation on LLVM IR"),
 })
 CHECKS["C03"] = dict(engine="E-SIZE + sibling size terms", cat="other", ref="DESIGN.md 4/C03, 3/E-SIZE, 10.7",
-   text="Z1/Z3: for the size predictors and their encoders (FORSize/FOREncode+BatchEncode, PFORSize/PFOREncode, DictEncodedSizeWithDict/DictEncodeWithDict, GroupSize/GroupEncode, RLEAnalyze/RLEEncode) every call whose result advances the encoder's cursor is matched by a predictor term with the same extracted length table on the same quantity (or a constant maximum), and the total sizes, as polynomials over named lengths, counts and widths with loop trip counts, are equal (>= for the documented worst-case PFOR predictor). Z2: for 8 encoders - delta (signed, unsigned), the four 128-block packers, the two Elias array encoders - every write offset+size through the destination and the returned length are bounded symbolically (init + iterations x advance; block loops split into full blocks and one partial block; counters kept in a writer object summed over callees) and compared with the exact sizing function for every residue of count modulo the block size / 8. NOT decided: writes of the FOR/PFOR/Dict/Group encoders against their predictors (only totals and terms), the maximum-size bounds of RLE (amortised), adaptive (depends on value-level selection) and float (special and normal values are exclusive); see evidence not_decided.",
+   text="Z1/Z3: for the size predictors and their encoders (FORSize/FOREncode+BatchEncode, PFORSize/PFOREncode, DictEncodedSizeWithDict/DictEncodeWithDict, GroupSize/GroupEncode, RLEAnalyze/RLEEncode) every call whose result advances the encoder's cursor is matched by a predictor term with the same extracted length table on the same quantity (or a constant maximum), and the total sizes, as polynomials over named lengths, counts and widths with loop trip counts, are equal (>= for the documented worst-case PFOR predictor). Z2: for 8 encoders - delta (signed, unsigned), the four 128-block packers, the two Elias array encoders, and the float encoder in its INDEPENDENT exponent mode - every write offset+size through the destination and the returned length are bounded symbolically (init + iterations x advance; block loops split into full blocks and one partial block; counters kept in a writer object summed over callees) and compared with the exact sizing function for every residue of count modulo the block size / 8. NOT decided: writes of the FOR/PFOR/Dict/Group encoders against their predictors (only totals and terms), the maximum-size bounds of RLE (amortised), adaptive (depends on value-level selection) and float in the COMMON/DELTA exponent modes; see evidence not_decided.",
    note=TB + "Sizes and counts are non-negative and unsigned arithmetic on them does not wrap; metadata fields named alike in predictor and encoder denote the same quantity; bytes written through the Elias bit writer lie below the byte count the writer reports. 3 fixed findings (varintPFORSize index term, varintBP128MaxBytes prefix, varintAdaptiveMaxSize).",
    tech="static analysis: sibling agreement of extracted length tables / value roles, and symbolic upper bounds of output cursors (quasi-polynomials with loop trip counts, compared by residue enumeration) on LLVM IR")
 NA = {
